@@ -241,4 +241,33 @@ int pthread_mutex_trylock(pthread_mutex_t* m)
     sched_point(SP_TRYLOCK, m);
     return real_mutex_trylock(m);
 }
+/* Timed acquisition (std::timed_mutex::try_lock_for/until): for a scheduled thread the waiting time is owned by the
+ * scheduler - if the mutex is held at this point the time-out is taken to elapse (any time-out can), otherwise the
+ * mutex is acquired.  Other threads use the real functions. */
+#include <dlfcn.h>
+#include <time.h>
+int pthread_mutex_timedlock(pthread_mutex_t* m, const struct timespec* ts)
+{
+    static int (*real)(pthread_mutex_t*, const struct timespec*);
+    if (sched_active_thread() >= 0)
+    {
+        sched_point(SP_TRYLOCK, m);
+        return real_mutex_trylock(m) == 0 ? 0 : ETIMEDOUT;
+    }
+    if (!real)
+        real = (int (*)(pthread_mutex_t*, const struct timespec*))dlsym(RTLD_NEXT, "pthread_mutex_timedlock");
+    return real(m, ts);
+}
+int pthread_mutex_clocklock(pthread_mutex_t* m, clockid_t c, const struct timespec* ts)
+{
+    static int (*real)(pthread_mutex_t*, clockid_t, const struct timespec*);
+    if (sched_active_thread() >= 0)
+    {
+        sched_point(SP_TRYLOCK, m);
+        return real_mutex_trylock(m) == 0 ? 0 : ETIMEDOUT;
+    }
+    if (!real)
+        real = (int (*)(pthread_mutex_t*, clockid_t, const struct timespec*))dlsym(RTLD_NEXT, "pthread_mutex_clocklock");
+    return real(m, c, ts);
+}
 #endif
